@@ -186,6 +186,8 @@ class Evolver:
         if k == "map":
             return {"kind": "map", "key": {"kind": "base", "name": self.pick(["string", "DocumentUri", "URI", "integer"])},
                     "value": self.simple_type(depth + 1, False)}
+        if k == "map-intkey":
+            return {"kind": "map", "key": {"kind": "base", "name": "integer"}, "value": self.simple_type(depth + 1, False)}
         if k == "string-literal":
             return {"kind": "stringLiteral", "value": "vf" + self.pick(WORDS_U)}
         if k == "tuple":
@@ -307,11 +309,11 @@ class Evolver:
             # productions that once exposed a defect (kept as a standing floor)
             "message-no-typename", "rust-keyword-name", "base-regexp", "empty-struct-property", "request-no-typename",
             "matrix", "same-name-different-nullness", "shared-registration-method", "diamond",
-            "message-regopts-no-params", "explicit-closed-enum", "and-registration-options", "deep-mixin", "confusing-message-names"]
+            "message-regopts-no-params", "explicit-closed-enum", "and-registration-options", "deep-mixin", "confusing-message-names", "exotic-enum-values"]
     RUST_AND_PYTHON_KEYWORDS = ["in", "for", "as", "if", "else", "while", "continue", "break", "return", "async", "await", "try", "yield"]
 
     MATRIX_PRODUCTIONS = ["base", "ref-struct", "ref-enum", "ref-alias", "array", "map", "tuple", "ornull-first", "ornull-last", "literal",
-                          "array-literal", "ornull-literal", "array-ornull", "map-ornull", "string-literal", "ornull-array-literal"]
+                          "array-literal", "ornull-literal", "array-ornull", "map-ornull", "string-literal", "ornull-array-literal", "map-intkey"]
 
     def e_matrix(self) -> None:
         """new structures whose properties cover every pair (name kind x type production x required/optional):
@@ -398,6 +400,14 @@ class Evolver:
             return self.e_override_chain()
         if focus == "message":
             return self.e_new_message()
+        if focus == "exotic-enum-values":
+            name = self.fresh_type_name("Ve")
+            vals = [("Plain", "plain"), ("Accent", "caf\u00e9"), ("Astral", "smile\U0001F600"), ("Dotted", "a.b-c"), ("Spaced", "two words")]
+            self.doc["enumerations"].append({"name": name, "type": {"kind": "base", "name": "string"},
+                                             "values": [{"name": n, "value": v} for n, v in vals]})
+            self.new_enums.append(name)
+            self.edits.append({"edit": "E3-new-enum", "name": name, "base": "string", "values": [v for _, v in vals]})
+            return self.e_new_property(force="ref-enum")
         if focus == "and-registration-options":
             for first in (True, False):
                 self.counter += 1
